@@ -232,6 +232,14 @@ def holder_history_batch(prop, work, res, quick):
         if steps:
             sid = "C11-failfirst-%s-%d" % (top, len(scen))
             scen.append({"sid": sid, "prop": prop, "vals": [], "steps": steps, "tags": ["holder-after-failure"], "dkey": sid})
+    for top, g1, g2 in (("HReq", "good", "good2"), ("HReq", "good2", "good"), ("HReqN", "ngood", "ngood")):
+        for o1, o2 in (("asc", "desc"), ("rot", "asc")):
+            steps = [{"op": "decode", "ty": top, "in": msgs["%s|%s" % (g1, o1)][0], "dest": "fresh"},
+                     {"op": "clone", "obj": 0},                                        # the caller keeps a copy of the struct (sharing its holder)
+                     {"op": "decode", "ty": top, "in": msgs["%s|%s" % (g2, o2)][0], "dest": "into", "obj": 0},
+                     {"op": "recheck", "obj": 1, "after": "reuse"}, {"op": "size", "ty": top, "obj": 1}]
+            sid = "C11-keptcopy-%s-%s-%s-%s" % (top, g1, o1, o2)
+            scen.append({"sid": sid, "prop": prop, "vals": [], "steps": steps, "tags": ["kept-copy"], "dkey": sid})
     return Batch("holder-history", defs, scen)
 
 
@@ -459,6 +467,18 @@ def required_encode_batch(prop, quick):
 def defaults_universe():
     uf = U.universe_fields()
     defs = {k: uf[k] for k in ("Leaf", "LeafReq", "LeafUnk", "Fix", "Defaults", "DefNc", "DefNcN", "OptVal")}
+    # a type with declared defaults that contains itself by value (its own descriptor is still being built when it is met again)
+    dr2 = U.struct([U.field(1, "optional", U.T("i32")), U.field(2, "optional", U.T("string")), U.field(3, "default", U.L(U.ST("DefRec", False))),
+                    U.field(4, "default", U.M(U.T("string"), U.ST("DefRec", False))), U.field(5, "optional", U.ST("DefRec", True))], init=True)
+    dr2["fields"][0]["def"] = [0, 0, 0, 5]
+    dr2["fields"][1]["def"] = list(b"rec")
+    defs["DefRec"] = dr2
+    defs["WDefRec"] = U.struct([U.field(1, "optional", U.T("i32", True)), U.field(2, "optional", U.T("string", True)), U.field(3, "default", U.L(U.ST("WDefRec", False))),
+                                U.field(4, "default", U.M(U.T("string"), U.ST("WDefRec", False))), U.field(5, "optional", U.ST("WDefRec", True))])
+    # struct types without fields: a pointer to one is non-nil exactly when the message carried it
+    defs["Ack"] = U.struct([])
+    defs["AckHolder"] = U.struct([U.field(1, "optional", U.ST("Ack", True)), U.field(2, "default", U.ST("Ack", True)), U.field(3, "default", U.ST("Ack", False)),
+                                  U.field(4, "default", U.L(U.ST("Ack", True))), U.field(5, "optional", U.M(U.T("string"), U.ST("Ack", True))), U.field(6, "default", U.T("i32"))])
     # the same type with its fields declared in another order / with untagged members in front (defaults belong to ids)
     import copy as _copy
     for nm, decl in (("DefaultsR", "rev"), ("DefaultsS", "shuf")):
@@ -514,7 +534,7 @@ def defaults_batches(prop, tier, seed, work, res, quick, rng):
     defs_path = vlib.write_defs(work, defs)
     scen = []
     # (1) encoder: presence of optional fields for values equal / different from the default
-    for s in ("Defaults", "DNest", "DTop", "DefNc", "DefNcN", "DefaultsR", "DefaultsS", "OptVal"):
+    for s in ("DefRec", "Defaults", "DNest", "DTop", "DefNc", "DefNcN", "DefaultsR", "DefaultsS", "OptVal", "AckHolder"):
         sizes = [0, 1, 2] if quick else [0, 1, 2, 9]
         for salt in ((0,) if quick else (0, 1, 2)):
             for label, v in U.struct_variants(s, defs, sizes, [0, 1, 4], salt):
@@ -554,6 +574,15 @@ def defaults_batches(prop, tier, seed, work, res, quick, rng):
         cid = "C10-dec-nest-%d" % n
         cases.append({"cid": cid, "w": "WDNest", "val": wn, "ord": ORDS[n % 4], "trail": [], "mut": "none"})
         plans[cid] = ("DNest", n)
+    # the self-containing type: nested values that omit their defaulted fields (the root is decoded FIRST in this batch)
+    sparse = lambda kids: {"f": {"1": {"p": 0}, "2": {"p": 0}, "3": {"nil": False, "items": kids}, "4": {"nil": False, "ents": [[list(b"k%d" % j), x] for j, x in enumerate(kids)]},
+                                 "5": {"p": 0}}, "unk": []}
+    leafv = {"f": {"1": {"p": 0}, "2": {"p": 1, "v": list(b"x")}, "3": {"nil": False, "items": []}, "4": {"nil": False, "ents": []}, "5": {"p": 0}}, "unk": []}
+    for a in range(2):
+        n += 1
+        cid = "C10-dec-rec-%d" % n
+        cases.append({"cid": cid, "w": "WDefRec", "val": sparse([sparse([leafv]), leafv] if a else [leafv, sparse([])]), "ord": ORDS[n % 4], "trail": [], "mut": "none"})
+        plans[cid] = ("DefRec", n)
     # other wire types at the ids of optional pointer fields
     for a in (0, 1):
         n += 1
@@ -579,4 +608,5 @@ def defaults_batches(prop, tier, seed, work, res, quick, rng):
         for dest in ("fresh", "zero", "val"):
             sc = decode_scenario(prop, cid + "-" + dest, t, msgs[cid.split("|")[0]][0], dest, defs, label="defaults")
             scen.append(sc)
+    scen.sort(key=lambda sc: 0 if "dec-rec" in sc["sid"] else 1)       # the self-containing type is first used as the root of a build
     return [Batch("defaults", defs, scen)]
